@@ -10,7 +10,7 @@ import collections
 import itertools
 from fractions import Fraction
 
-from engine import chooser, families as fam, refs, vkit
+from engine import chooser, families as fam, lockstep, refs, vkit
 from . import common
 from . import c01
 
@@ -36,6 +36,11 @@ def build_cases(tier, seed):
     # secondary score leaves several still-tied groups (single-round rules only, see run_case)
     for c in fam.prof_list(fam.perm_family(4), 2, (1,), fam.cands(4)):
         cs.append(("rank4s", "int", c))
+    # four candidates, multi-round: one-by-one STV-family counts with a tiebreak (election ties in later rounds whose
+    # Borda / first-place order differs between the initial and the current profile)
+    pb4 = fam.perm_family(4) + fam.bullet_family(4)
+    for c in fam.prof_list(pb4, 2, (1, 2), fam.cands(4))[:: (6 if tier == "quick" else 2)]:
+        cs.append(("rank4m", "int", c))
     if tier == "thorough":
         # engineered tie family on four candidates: profiles with a tie in first-place or Borda scores
         c4 = fam.cands(4)
@@ -47,7 +52,7 @@ def build_cases(tier, seed):
                 cs.append(("rank4", "int", c))
     _CASES = cs
     meta = {
-        "family": "ranked: " + common.family_text(tier, extra4=False) + "; Prof(Perm(4),2,{1}) for the single-round rules; tied ballots Prof(Weak(3),2,{1,2}); score profiles; "
+        "family": "ranked: " + common.family_text(tier, extra4=False) + "; Prof(Perm(4),2,{1}) for the single-round rules; a slice of Prof(Perm(4)+Bullet(4),2,{1,2}) for one-by-one STV / SequentialRCV with a tiebreak; tied ballots Prof(Weak(3),2,{1,2}); score profiles; "
                   + ("engineered tie family: Prof(Rank(4),2,{1,2}) filtered to profiles with equal positive first-place or equal Borda scores; " if tier == "thorough" else "")
                   + "x every non-random rule configuration (Plurality, SNTV, Borda, TopTwo, CondoBorda, DominatingSets, STV/IRV/"
                   "SequentialRCV with fractional transfer, Alaska, Rating/Approval/Limited/Cumulative/BlocPlurality) x tiebreak in "
@@ -66,7 +71,7 @@ def _get(i):
 
 def case_json(i):
     kind, tag, c = _get(i)
-    return c01.case_json((("rank" if kind in ("rank4", "rank4s") else kind), tag, c))
+    return c01.case_json((("rank" if kind in ("rank4", "rank4s", "rank4m") else kind), tag, c))
 
 
 def case_from_json(j):
@@ -172,7 +177,7 @@ def score_for_tb(tb, case):
 
 def run_case(i, tier):
     kind, tag, case = _get(i)
-    mkind = "rank" if kind in ("rank4", "rank4s") else kind
+    mkind = "rank" if kind in ("rank4", "rank4s", "rank4m") else kind
     cs = case[0]
     cnt = collections.Counter()
     out = {"counters": cnt, "viols": []}
@@ -180,6 +185,8 @@ def run_case(i, tier):
         if label in RANDOM_RULES or kw.get("transfer") == "random":
             continue
         if kind == "rank4s" and label not in ("Plurality", "SNTV", "Borda", "TopTwo", "CondoBorda", "DominatingSets"):
+            continue
+        if kind == "rank4m" and (label not in ("STV", "SequentialRCV") or kw.get("simultaneous", True) or kw.get("tiebreak") is None):
             continue
         if mkind == "score" and False:
             continue
@@ -221,6 +228,33 @@ def run_case(i, tier):
             if msg:
                 out["viols"].append(_viol("tiebreak_structure", label, kw, i, msg, p))
                 continue
+            # (3') STV one-by-one election ties under 'borda' / 'first_place': the recorded order must be consistent with that
+            # score of the profile *of that round* (reconstructed by the lock-step reference), random only inside still-tied groups
+            if what == "stv" and recorded and kw.get("tiebreak") in ("borda", "first_place") and not kw.get("simultaneous", True):
+                _, m_, q_, sim_, tb_, tr_ = spec
+                cfg = refs.STVConfig(m_, q_, sim_, tb_, tr_, case)
+                v = lockstep.follow(states, None, case, cfg)
+                if v.status in ("ok", "violation"):
+                    bad = None
+                    for (r, T, res) in recorded:
+                        if not [c for g in states[r][2] for c in g]:
+                            continue  # elimination tiebreak: decided by initial first-place votes (C02)
+                        if len(v.per_round) < r:
+                            break  # the rounds before r are not a legal count (C02 reports that)
+                        order = tuple(g[0] for g in res)
+                        okk = False
+                        for (B, rem, nel) in v.per_round[r - 1]:
+                            cur = refs.case_of(B, rem)
+                            sc = refs.ref_borda(cur) if tb_ == "borda" else refs.ref_fpv(cur)
+                            if order in set(refs._orders_by_score(T, sc)):
+                                okk = True
+                        if not okk:
+                            bad = (f"round {r}: recorded resolution {order} of the election tie {sorted(T)} is not consistent with the "
+                                   f"{tb_} scores of the profile of that round")
+                            break
+                    if bad:
+                        out["viols"].append(_viol("tiebreak_order", label, kw, i, bad, p))
+                        continue
             # collect law of the first recorded resolution
             if recorded and what in ("fpv", "borda", "score", "condo", "toptwo", "alaska"):
                 r, T, res = recorded[0]
